@@ -81,19 +81,19 @@ def dirtyCore (conv : Nat) (n : Nat) (c f y alpha pay alphaCf : α) : Except PyE
     if n = 0 then .ok (powF v alpha * (1 + pay * c / f))
     else .ok (powF v alpha * terms n c f v pay)
   | 3 =>
-    if n = 0 then .ok (powF v alpha * (1 + c / f))
+    if n = 0 then .ok (powF v alpha * (1 + pay * c / f))
     else
       let vw := 1 / (1 + alpha * y / f)
       .ok (vw * terms n c f v pay)
   | 2 =>
     if n = 0 then
       let vw := 1 / (1 + alpha * y / f)
-      .ok (vw * (1 + c / f))
+      .ok (vw * (1 + pay * c / f))
     else .ok (powF v alpha * terms n c f v pay)
   | 4 =>
     if n = 0 then
       let vw := 1 / (1 + alphaCf * y)
-      .ok (vw * (1 + c / f))
+      .ok (vw * (1 + pay * c / f))
     else .ok (powF v alpha * terms n c f v pay)
   | _ => .error .finError
 
@@ -142,26 +142,35 @@ def convexity (P : α → α) (y : α) : α :=
 
 /-! ### Price from a discount curve (`dfs[i] = discount_curve.df(cpn_dts[i])`) -/
 
-/-- the loop `for dt in self.cpn_dts[2:]: if dt > settle_dt: df = …; px += (cpn/freq) * df`;
-state `(px, df)` -/
-def curveLoop (settle : Int) (cf : α) : List (Int × α) → α × α → α × α
+/-- `self.ncd` after `_calc_pcd_ncd(settle_dt)`: the first coupon date (index ≥ 1) strictly after settlement;
+`none` = the search falls through (then no date is after settlement either). -/
+def ncdDate (dates : List Int) (settle : Int) : Option Int :=
+  dates.tail.find? (fun d => decide (d > settle))
+
+/-- the loop `for dt in self.cpn_dts[1:]: if dt > settle_dt: df = …; pv = (cpn/freq) * df;
+if dt == self.ncd: pv = pv * pay_first_cpn; px += pv`; state `(px, df)` -/
+def curveLoop (settle : Int) (cf pay : α) (ncd : Option Int) : List (Int × α) → α × α → α × α
   | [], s => s
   | (d, dfd) :: rest, (px, df) =>
-    if d > settle then curveLoop settle cf rest (px + cf * dfd, dfd)
-    else curveLoop settle cf rest (px, df)
+    if d > settle then
+      let pv := cf * dfd
+      let pv := if ncd = some d then pv * pay else pv
+      curveLoop settle cf pay ncd rest (px + pv, dfd)
+    else curveLoop settle cf pay ncd rest (px, df)
 
-/-- `Bond.dirty_price_from_discount_curve`; `sched[i] = (cpn_dts[i], df(cpn_dts[i]))`,
-`exDiv = settle_dt > self.ex_div_dt`.  Fewer than two coupon dates ⇒ `IndexError` on `cpn_dts[1]`. -/
+/-- `Bond.dirty_price_from_discount_curve` (after fix dd7e86d); `sched[i] = (cpn_dts[i], df(cpn_dts[i]))`,
+`exDiv = settle_dt > self.ex_div_dt`.  With fewer than two coupon dates there is no `ncd` (the implementation raises; not reachable for a `Bond`). -/
 def dirtyPriceFromCurve (sched : List (Int × α)) (settle : Int) (exDiv : Bool) (dfSettle c f : α) :
     Except PyErr α :=
   match sched with
-  | _ :: (d1, df1) :: rest =>
+  | _ :: d1 :: rest' =>
+    let rest := d1 :: rest'
     let pay : α := payFirst exDiv
     let cf := c / f
-    let s0 : α × α := if d1 > settle then ((0 : α) + cf * df1 * pay, df1) else ((0 : α), (1 : α))
-    let (px, df) := curveLoop settle cf rest s0
+    let ncd := ncdDate (sched.map (·.1)) settle
+    let (px, df) := curveLoop settle cf pay ncd rest ((0 : α), (1 : α))
     .ok ((px + df) / dfSettle * 100)
-  | _ => .error .indexError
+  | _ => .error .other
 
 /-! ### Zero-coupon bond (`bond_zero.py`) in its own quoting terms -/
 
@@ -178,15 +187,15 @@ def zeroAccrued (num den issuePrice face : α) : α :=
   let g := (100 - issuePrice) / 100
   f * g * face
 
-/-- `BondZero.dirty_price_from_discount_curve` AS CODED: `px += df * self.par; px = px / df_settle;
+/-- `BondZero.dirty_price_from_discount_curve` (after fix 211a9f6): `px += df; px = px / df_settle;
 return px * self.par`. -/
 def zeroDirtyFromCurve (dfMat dfSettle : α) : α :=
-  ((0 : α) + dfMat * 100) / dfSettle * 100
+  ((0 : α) + dfMat) / dfSettle * 100
 
 /-! ### Annuity (`bond_annuity.py`) and FRN (`bond_frn.py`) -/
 
 /-- `BondAnnuity.dirty_price_from_discount_curve`: `for i in 1..: pv = pv + flow[i] * df(dt[i])`,
-flows `cpn * year_frac(prev, next) * 1.0`; then `pv * par`.  `l = [(alpha_i, df_i)]`. -/
+flows `cpn * year_frac(prev, next, next, freq_type) * 1.0`; then `pv * par`.  `l = [(alpha_i, df_i)]`. -/
 def annuityLoop (cpn : α) : List (α × α) → α → α
   | [], pv => pv
   | (a, df) :: rest, pv => annuityLoop cpn rest (pv + cpn * a * 1 * df)
